@@ -137,7 +137,22 @@ type frameStream struct {
 	buf bytes.Buffer
 }
 
+// observeSegment sees bytes when they are sent; observeDelivery when they
+// arrive. Requests are judged at send time (what the controller tried to do),
+// replies at delivery time (what the controller could know).
 func (c *cluster) observeSegment(conn *simrt.TCPConn, toServer bool, n int, data []byte) {
+	if toServer {
+		c.observe(conn, toServer, data)
+	}
+}
+
+func (c *cluster) observeDelivery(conn *simrt.TCPConn, toServer bool, n int, data []byte) {
+	if !toServer {
+		c.observe(conn, toServer, data)
+	}
+}
+
+func (c *cluster) observe(conn *simrt.TCPConn, toServer bool, data []byte) {
 	if conn.ServerNode() == nil || !strings.HasSuffix(conn.RemoteAddr().String(), ":9503") && !strings.HasSuffix(conn.LocalAddr().String(), ":9503") {
 		return
 	}
@@ -184,6 +199,7 @@ func dirName(toServer bool) string {
 func newCluster(w *simrt.World, res *Result, root string, rf int, size int64, nreps int) *cluster {
 	c := &cluster{w: w, res: res, root: root, rf: rf, size: size, streams: map[string]*frameStream{}}
 	w.OnSegment = c.observeSegment
+	w.OnDeliver = c.observeDelivery
 	w.HTTPPolicy = func(r *simrt.HTTPReqInfo) simrt.HTTPVerdict {
 		c.mu.Lock()
 		c.httpLog = append(c.httpLog, r)
